@@ -49,6 +49,17 @@ def main():
         else:
             ctx.proof["obligations"] = ctx.proof["discharged"] = len(
                 core.theorem_names(os.path.join(core.LEAN, "PycommProps", prop + ".lean")))
+        # drift (DESIGN §5.3): the anchored source moved since the fingerprints were locked -> not an alarm, but this run
+        # spends three times the quick budget on its streams
+        try:
+            import drift
+            moved = drift.changed(prop)
+        except Exception as e:  # noqa
+            moved = ["drift detection failed: %r" % (e,)]
+        ctx.extra["source_drift"] = moved
+        if moved and tier == "quick" and not os.environ.get("VERIF_NO_ESCALATE"):
+            ctx.escalated = True
+            print("source drift in %s: %s -> tripled budget for this run" % (prop, ", ".join(moved[:6])))
         model = Model()
         try:
             mod.run(ctx, model)
